@@ -428,6 +428,7 @@ pub fn build_seeds() -> Result<Vec<Seed>, String> {
     js("entities-json", &entities_json, R_J_ENTITIES);
     js("entity-json", &entity_json, R_J_ENTITY);
     js("context-json", &context_json, R_J_CONTEXT);
+    js("context-json-conforming", &cj, R_J_CONTEXT);
     js("euid-json", &json!({"__entity": {"type": "NS::Thing", "id": "a"}}), R_J_EUID);
     js("ffi-policy-set", &ffi_pset, R_J_PSET);
     js(
@@ -481,6 +482,9 @@ pub fn run_case(run: &mut Run, fx: &Fix, bytes: &[u8], route: u64) {
     }
     if route & R_NAME != 0 {
         ep_name_text(run, fx, s);
+    }
+    if route & (R_NAME | R_EXT) != 0 {
+        ep_ext_text(run, fx, s);
     }
     if route & R_CSCHEMA != 0 {
         ep_cschema_text(run, fx, s, route & R_CSCHEMA_FFI != 0);
@@ -798,7 +802,7 @@ fn pipe_type_name(run: &mut Run, t: &EntityTypeName) {
     });
 }
 
-fn ep_name_text(run: &mut Run, fx: &Fix, s: &str) {
+fn ep_name_text(run: &mut Run, _fx: &Fix, s: &str) {
     ep!(run, "EntityUid::from_str", EntityUid::from_str(s), u => pipe_euid(run, &u));
     ep!(run, "EntityTypeName::from_str", EntityTypeName::from_str(s), t => {
         pipe_type_name(run, &t);
@@ -812,6 +816,9 @@ fn ep_name_text(run: &mut Run, fx: &Fix, s: &str) {
     });
     run.call("EntityId::from_str", || EntityId::from_str(s).map(|i| i.escaped().len() + i.unescaped().len()).unwrap_or(0));
     run.call("PolicyId::from_str", || PolicyId::from_str(s).map(|i| i.to_string().len()).unwrap_or(0));
+}
+
+fn ep_ext_text(run: &mut Run, fx: &Fix, s: &str) {
     // extension constructors from arbitrary strings (evaluated through Context / eval_expression)
     for (i, r) in [RestrictedExpression::new_ip(s), RestrictedExpression::new_decimal(s), RestrictedExpression::new_datetime(s), RestrictedExpression::new_duration(s), RestrictedExpression::new_string(s.to_string())].into_iter().enumerate() {
         match i {
